@@ -7,6 +7,9 @@ ROOT = os.path.dirname(os.path.dirname(os.path.abspath(__file__)))
 
 # id -> (technique, level text, level note, design ref)
 CHECKS = {
+    "C03": ("property-based testing: generated programs executed on an RV32IM reference interpreter; executed transfers vs CFG edges, structural edge invariants",
+            "Generated-input search over arbitrary programs in the stated domain x several initial states: inverse successor/predecessor sets, every executed transfer is an edge, every edge is legitimate, exits have no successors, executed code is never reported unreachable. Exploration.",
+            "Trusts the reference machine and the statement/node correspondence (by order, cross-checked by offsets).", "5/C03"),
     "C07": ("property-based testing (proptest choice sequences): coverage oracle + deletion metamorphic relation over generated files with injected malformed lines",
             "Generated-input search: thousands of generated one-statement-per-line files with malformed lines of 14 kinds at random positions (LF/CRLF, with/without final newline, include split); every content line must be covered by a node or an error on it, and all other lines must parse as in the file with the malformed lines deleted. Exploration, not proof: absence of a violation is only established for the cases generated.",
             "Trusts the harness's own line arithmetic (recomputed from raw offsets) and the generator's list of malformed-line kinds.", "5/C07"),
@@ -16,6 +19,18 @@ CHECKS = {
     "C09": ("property-based testing: differential against a reference tokenizer + renderer source map, position arithmetic recomputed from the text",
             "Generated-input search over programs rendered with every surface freedom; each token, node, operand, parse error and diagnostic location is compared with a reference tokenizer and the renderer's source map. Exploration.",
             "Trusts the reference tokenizer (written from the documented token classes) and the renderer's source map (unit-tested).", "5/C09"),
+    "C10": ("property-based testing: repeated fresh runs of the library entry point compared item by item (hash seeds and uuids sampled by repetition), duplicate search",
+            "Each generated single- or multi-file program is linted 6 times (12 thorough) with fresh readers, uuids and hasher keys; outputs must be identical and duplicate-free. A two-way hash-order tie is detected with probability 1-2^-(R-1) per case. Exploration.",
+            "Hash-iteration orders cannot be enumerated; they are sampled.", "5/C10"),
+    "C11": ("property-based testing: function set from the text, bodies by an own reachability search over the observed edges",
+            "Generated-input search over arbitrary call/label arrangements, 3 analyses per program: function entries = call targets, nodes() = reachable set, owner lists consistent, one reached return as exit with other returns leading to it, sharing reported iff it exists. Exploration.",
+            "Trusts the harness's BFS over the edges the analyzer reports (C03 checks those edges).", "5/C11"),
+    "C12": ("property-based testing over programs x sequences of extra pass runs; snapshot equality; hook counters for the sweep bound",
+            "Generated-input search: the snapshot of facts/edges/diagnostics after the pipeline must equal the snapshot after 0-6 extra pass runs and that of a second fresh analysis; sweeps are bounded linearly in the node count via deterministic counters. Exploration.",
+            "Sweep counters from the guarded hook commit.", "5/C12"),
+    "C16": ("property-based testing with fault injection: CFG-level faults of 12 kinds injected into parse-clean generated programs",
+            "Generated-input search: undefined/duplicate labels must be named at an occurrence; every other error that stops the analysis must be specific, attached to a user file and located. Exploration.",
+            "Label definitions/uses are computed from the model, locations through the renderer's source map.", "5/C16"),
     "C17": ("property-based testing + exhaustive boundary enumeration against an own literal evaluator",
             "Boundaries of the 32-bit range +-2 (and 2^32..2^65) are enumerated over all notations, spellings and 11 operand sites; random 32-bit values, out-of-range magnitudes and malformed spellings are sampled. Exploration with an exhaustive boundary table.",
             "Trusts the harness's literal evaluator (spellings are built from known mathematical values).", "5/C17"),
